@@ -817,6 +817,21 @@ def m_range_contains(ex, st, callee, args, dest_ty):
     yield st, mk_bool(z3.simplify(z3.And(x.e >= lo.e, x.e <= hi.e if incl else x.e < hi.e)))
 
 
+def m_box_new_uninit(ex, st, callee, args, dest_ty):
+    """Box::<[T; N]>::new_uninit(): the `vec![..]` lowering writes the array through MaybeUninit.value(.1) / ManuallyDrop(.0) / MaybeDangling(.0)"""
+    inner = Adt("struct", "MaybeUninit", (UNIT, Adt("struct", "ManuallyDrop", (Adt("struct", "MaybeDangling", (Opaque("uninit"),)),))))
+    yield st, Ref(ex.new_cell(st, inner, "box"))
+
+
+def m_box_into_vec(ex, st, callee, args, dest_ty):
+    b = args[0]
+    v = ex.read(st, b.cell, b.projs)
+    arr = v.fields[1].fields[0].fields[0]
+    if not (isinstance(arr, Adt) and arr.kind == "array"):
+        raise MirUnsupported("vec![..] array was not initialised: %r" % (arr,))
+    yield st, VecV(z3.IntVal(len(arr.fields)), arr.fields, "T")
+
+
 def m_box_new(ex, st, callee, args, dest_ty):
     yield st, Ref(ex.new_cell(st, args[0], "box"))
 
@@ -863,6 +878,33 @@ def m_ne_via_eq(ex, st, callee, args, dest_ty):
     return g()
 
 
+def m_box_eq(ex, st, callee, args, dest_ty):
+    m = re.match(r"^<Box<(.*)> as PartialEq>::(eq|ne)$", callee)
+    a, b = args
+    ia = ex.read(st, a.cell, a.projs) if isinstance(a, Ref) else a
+    ib = ex.read(st, b.cell, b.projs) if isinstance(b, Ref) else b
+    return ex.call(st, "<%s as PartialEq>::%s" % (m.group(1), m.group(2)), [ia, ib], dest_ty)
+
+
+def m_vec_eq(ex, st, callee, args, dest_ty):
+    m = re.match(r"^<Vec<(.*)> as PartialEq>::eq$", callee)
+    a, b = deref(ex, st, args[0]), deref(ex, st, args[1])
+    na, nb = ex.concrete(a.len), ex.concrete(b.len)
+    if na is None or nb is None:
+        raise MirUnsupported("equality of vectors of symbolic length")
+    if na != nb:
+        yield st, mk_bool(False)
+        return
+    body = ex.resolve("<%s as PartialEq>::eq" % m.group(1))
+    conj = []
+    for x, y in zip(a.items[:na], b.items[:nb]):
+        o = ex._merged_call(st, body, [Ref(ex.new_cell(st, x, "eq")), Ref(ex.new_cell(st, y, "eq"))]) if body is not None else None
+        if o is None:
+            raise MirUnsupported("element equality could not be summarised")
+        conj.append(o.value.e)
+    yield st, mk_bool(z3.simplify(z3.And(conj)) if conj else True)
+
+
 def m_opaque_error(ex, st, callee, args, dest_ty):
     yield st, Opaque("Error", info=callee)
 
@@ -880,6 +922,8 @@ BASE_MODELS = [
     (R(r" as PartialEq(<.*>)?>::(eq|ne)$"), m_partial_eq),
     (R(r"^<&.+ as (PartialEq|PartialOrd|Ord)(<&.*>)?>::\w+$"), m_ref_forward),
     (R(r"^<[A-Z]\w* as PartialEq>::ne$"), m_ne_via_eq),
+    (R(r"^<Box<.*> as PartialEq>::(eq|ne)$"), m_box_eq),
+    (R(r"^<Vec<.*> as PartialEq>::eq$"), m_vec_eq),
     (R(r"^Option::<.*>::as_ref$"), m_opt_as_ref),
     (R(r"^Option::<.*>::is_some$"), m_is_some),
     (R(r"^Option::<.*>::is_none$"), m_is_none),
@@ -933,6 +977,8 @@ BASE_MODELS = [
     (R(r"^std::ops::RangeInclusive::<.*>::new$"), m_range_incl_new),
     (R(r"^std::ops::Range(Inclusive)?::<.*>::contains::<.*>$"), m_range_contains),
     (R(r"^Box::<.*>::new$"), m_box_new),
+    (R(r"^Box::<\[.*\]>::new_uninit$"), m_box_new_uninit),
+    (R(r"^std::boxed::box_assume_init_into_vec_unsafe::<.*>$"), m_box_into_vec),
     (R(r"^<.* as (Try)?Into<.*>>::(try_)?into$"), m_try_into),
     (R(r"^DmntkError::new$| as Into<DmntkError>>::into$| as From<.*Error>>::from$"), m_opaque_error),
 ]
